@@ -22,6 +22,14 @@ def run_property(prop: str, repo: str, tier: str, only=None, seed: int = 0, writ
         ch = Checker(prop, prog, tier, repo)
         mod = importlib.import_module('sa.rules.%s' % prop.lower())
         mod.run(ch)
+        if tier == 'thorough' and not only and os.environ.get('VERIF_NO_SWEEP') != '1':
+            from sa.sensitivity import sweep
+            try:
+                ch.sensitivity = sweep(prop, repo, 'quick', seed)
+                print('  sensitivity sweep: %d of %d in-memory mutants of the analysed functions are reported by the rules'
+                      % (ch.sensitivity['mutants_reported_by_the_rules'], ch.sensitivity['mutants_evaluated']))
+            except Exception as e:   # the sweep never affects the verdict
+                ch.note('sensitivity sweep failed: %r' % e)
         return finish(ch, only=only, seed=seed, write_evidence=write_evidence)
     except AnalysisError as e:
         print('ANALYSIS-ERROR property=%s %s' % (prop, e))
